@@ -494,3 +494,24 @@ def pipeline_of(body, operand):
         stages.append((t["callee"].split("::")[-1], od[1]["block"], t, clo))
         o = t["args"][0]
     return None, list(reversed(stages))
+
+
+FMT_ONLY = r"^core::fmt::rt::Argument::<'_>::new_\w+$|^std::fmt::Arguments::<'a>::new\w*$|^core::fmt::rt::\w+|^log::__private_api::\w+$|^std::fmt::format$|^alloc::fmt::format$|^std::mem::drop$"
+
+
+def only_formatted(body, local):
+    """The value in `local` is used for nothing but being rendered (log / format arguments): no branch, run-time check,
+    index or other call ever sees it or anything derived from it."""
+    tainted = forward_taint(body, seed_locals=[local], int_barrier=False)
+    for kind, bi, det in tainted_uses(body, tainted):
+        if kind in ("switch", "assert", "index"):
+            # the level test of a log macro does not depend on the value; a switch on it is a real decision
+            return False
+        if kind == "call":
+            t, idx = det
+            if re.search(FMT_ONLY, t.get("callee", "")):
+                continue
+            if in_macro(body, bi, ("log!", "trace!", "debug!", "info!", "warn!", "error!", "format!", "format_args!", "write!", "writeln!")):
+                continue
+            return False
+    return True
